@@ -98,7 +98,7 @@ static int in_cb_slot = -1, in_cb_kind = -1;
 
 /* user descriptors */
 #define NUFD 3
-static struct { int rd, wr, open_rd, bytes; } UFD[NUFD];
+static struct { int rd, wr, open_rd, bytes, hung, hung_seen; } UFD[NUFD];      /* hung: the write end was closed (readable for ever: end of file); hung_seen: reported since */
 static int BADFD = -1;                      /* a descriptor epoll refuses (regular file): key 14 of the descriptor kind */
 
 static const uint64_t TMO[] = { 0, 5000000ull, 20000000ull };     /* batch timeouts: none, 5 ms, 20 ms */
@@ -140,6 +140,13 @@ static int new_msg(int sender, int topic, int sys, int autofree) {
     else if (autofree) { m->payload = lg_malloc(8); }
     else m->payload = &PAY[nmsg];
     return nmsg++;
+}
+/* low-priority events are held back until the next invocation: either a LOW subscription is there, or an event that arrived under one is still pending */
+static int holds_low(int s) {
+    mod_t *m = &MD[s];
+    for (int q = 0; q < NPAT; q++) if (m->sub[q].present && m->sub[q].prio == PR_LOW) return 1;
+    for (int k = 0; k < m->nmb; k++) if (m->mb[k].kind == 0 && (m->mb[k].prio == PR_LOW || m->mb[k].prio < 0)) return 1;
+    return 0;
 }
 static void mb_append(int s, int msg, int optional, unsigned pats) {
     mod_t *m = &MD[s];
